@@ -106,15 +106,15 @@ theorem oki_decode_bounds (st : Oki.St) (code : Nat) :
     · split <;> omega
   · trivial
 
-/-- `vox_write_block` on an even count reports exactly that count (no pad sample) -/
+/-- `vox_write_block` before the repair of KF-VOX-ODD: on an even count it reported exactly that count (no pad sample) -/
 theorem vox_writeBlock_even : ∀ (fuel : Nat) (st : Oki.St) (xs : List Int) (n : Nat), n % 2 = 0 → n < fuel →
-    (Oki.writeBlock fuel st xs n).2.2 = n := by
+    (Oki.writeBlockOld fuel st xs n).2.2 = n := by
   intro fuel
   induction fuel with
   | zero => intro st xs n _ h; omega
   | succ fuel ih =>
     intro st xs n he hf
-    unfold Oki.writeBlock
+    unfold Oki.writeBlockOld
     by_cases hn : n = 0
     · simp [hn]
     · simp only [hn, if_false]
